@@ -808,10 +808,11 @@ def _c09_branch(rng, kind):
 
 
 class C09(Check):
+    base_profile = {"lines_p": 0.6}
+    quick_cases = 1200
     rule = ("one map/parallel call with 0..6 items, every CompletionConfig combination, max_concurrency in {None,1,2,n}, per-branch "
             "scripts (succeed, fail, park on wait/callback/retry, block 30 virtual s) followed by a wait and a step so that the call is "
             "replayed; non-trivial iff >=2 branch bodies overlapped or the call returned with a branch still running/parked")
-    quick_cases = 500
 
     def make_cfg(self, seed_i, prof):
         rng = random.Random(H(seed_i, "prog"))
